@@ -1484,6 +1484,12 @@ get_getter(CPPType *expr_type, string expression,
     return 0;
   }
 
+  // The same goes for a function of that name that is declared in the scope
+  // but that we have not come to yet (declared after the data member).
+  if (scope != nullptr && scope->_functions.count(fname) != 0) {
+    return 0;
+  }
+
   ostringstream desc;
   desc << "getter for ";
   if (element != nullptr) {
@@ -1558,6 +1564,12 @@ get_setter(CPPType *expr_type, string expression,
   // function for a synthesized setter.
   string function_name = TypeManager::get_function_name(function);
   if (_functions_by_name.count(function_name) != 0) {
+    return 0;
+  }
+
+  // The same goes for a function of that name that is declared in the scope
+  // but that we have not come to yet (declared after the data member).
+  if (scope != nullptr && scope->_functions.count(fname) != 0) {
     return 0;
   }
 
